@@ -243,7 +243,8 @@ func parseStatusOnError(status string) (*envoytypev3.HttpStatus, error) {
 	if err != nil {
 		return nil, multierror.Prefix(err, fmt.Sprintf("invalid statusOnError %q:", status))
 	}
-	if _, found := envoytypev3.StatusCode_name[int32(code)]; !found {
+	// code 0 is the enum's "Empty" placeholder: Envoy rejects an HttpStatus carrying it (and with it the listener)
+	if _, found := envoytypev3.StatusCode_name[int32(code)]; !found || code == 0 {
 		return nil, fmt.Errorf("unsupported statusOnError %s, supported values: %v", status, supportedStatus)
 	}
 	return &envoytypev3.HttpStatus{Code: envoytypev3.StatusCode(code)}, nil
